@@ -1,4 +1,5 @@
 import Ivy.L1.ProofsC04
+import Ivy.L1.TablesAgree
 /-!
 # C04 — property theorem over the L1 loop machine
 
@@ -16,5 +17,12 @@ theorem monitor_accepts (m : Method) (ntimers : Nat) (timerfdAvail pwait2 : Bool
     (evs : List Ev) (s' : St) (h : Exec (St.init m ntimers timerfdAvail pwait2) evs s') :
     Ivy.Mon.C04.verdict evs = none :=
   Ivy.L1.ProofsC04.monitor_accepts m ntimers timerfdAvail pwait2 evs s' h
+
+/-- T-gen (sampled grid, re-checked against /repo's current code on every run): `timespec_gt`, `to_relative`,
+`to_msec`, `timespec_cmp` are `TS.gt`, `toRelative`, `toMsec`, `tsCmp` on every row of the grid -/
+theorem timespec_tables_agree :
+    (∀ r ∈ Ivy.Generated.Tables.timespec, Ivy.L1.TablesAgree.tsRowOk r) ∧
+    (∀ r ∈ Ivy.Generated.Tables.timespecCmpNull, tsCmp none ⟨r.1, r.2.1⟩ = r.2.2) :=
+  Ivy.L1.TablesAgree.timespec_tables_agree
 
 end Ivy.Props.C04
